@@ -139,8 +139,8 @@ CHECKS: dict[str, dict[str, str]] = {
         ref='DESIGN.md 4/C16'),
     'C18': dict(
         technique='TLA+ reference of the admission response (Admission.tla over JV.tla: RFC 7386 merge, RFC 6902 application incl. move/copy); '
-                  'the real serve_admission_request run on systematic combinations, records judged by TLC',
-        text='[+ Managed.tla: the wake-up chain of the managed configurations (container, condition_chain, the two managers; asyncio Lock / Condition as they behave) model-checked for every interleaving: no update lost, no deadlock; two witnesses; MC_Webhooks: the announcement law for 1.17 M declaration x cluster x review combinations] [+ Webhooks.tla: the announcing side -- the entry build_webhooks must produce, an API server\'s dispatch of a grid of reviews through it, and the law "sent to the webhook iff the declared criteria hold"; bound to records of the real build_webhooks and to the configuration objects a real operator with managed webhooks leaves in the cluster (kinds that come and go, client configs on a schedule, only persistent handlers after the exit)] [+ a kind served in two versions, handlers that name a version or none: Admission!SelectedH has the version clause] [+ the filters of the handlers (labels, field/value, when) in the selection, judged on the reviewed object with a differing other object] allowed iff no selected handler raised; message/code from the most specific error; warnings in order; exactly the selected '
+                  'the real serve_admission_request run on systematic combinations, records judged by TLC; TLA+ reference of the announced webhook configuration and of an API server\'s dispatch (Webhooks.tla, the law model-checked in MC_Webhooks) judging the real build_webhooks; implementation-shaped TLA+ model of the managed-configuration wake-up chain (Managed.tla) model-checked over all interleavings and bound by trace validation of the real operator (Trace_Managed)',
+        text='[+ Managed.tla: the wake-up chain of the managed configurations (container, condition_chain, the two managers, the orchestrator, the observers; asyncio Lock / Condition as they behave) model-checked for every interleaving: no update lost, no deadlock, liveness; two witnesses; bound by Trace_Managed to the lock / condition events, revisions and builds of every managed closed-loop run; MC_Webhooks: the announcement law for 1.17 M declaration x cluster x review combinations] [+ Webhooks.tla: the announcing side -- the entry build_webhooks must produce, an API server\'s dispatch of a grid of reviews through it, and the law "sent to the webhook iff the declared criteria hold"; bound to records of the real build_webhooks and to the configuration objects a real operator with managed webhooks leaves in the cluster (kinds that come and go, client configs on a schedule, only persistent handlers after the exit)] [+ a kind served in two versions, handlers that name a version or none: Admission!SelectedH has the version clause] [+ the filters of the handlers (labels, field/value, when) in the selection, judged on the reviewed object with a differing other object] allowed iff no selected handler raised; message/code from the most specific error; warnings in order; exactly the selected '
              'handlers ran (webhook id, operation, subresource, mutating-on-DELETE opt-in); the returned JSON patch applied to the reviewed '
              'object equals the transformations applied to the RFC 7386 merge of the instructions, up to empty mappings - decided by TLC for '
              'every record of the real code. Families F12, F13, F24 are TLA+ predicates.',
